@@ -11,7 +11,7 @@ import (
 )
 
 var c17Floor = []string{"opts.none", "opts.W", "opts.P", "opts.I", "opts.WP", "opts.WI", "opts.PI", "opts.WPI", "spell.dq", "spell.brackets", "spell.neutral-under-option",
-	"lit.dquote", "lit.squote", "lit.backtick", "lit.backslash", "lit.bracket", "ident.dquote-in-backtick", "ident.bracket", "ident.space", "array.nested", "array.empty", "array.with-bracket-literal", "path.bracket", "where"}
+	"lit.dquote", "lit.squote", "lit.backtick", "lit.backslash", "lit.bracket", "ident.dquote-in-backtick", "ident.bracket", "ident.space", "array.nested", "array.empty", "array.with-bracket-literal", "path.bracket", "where", "shape.derived", "shape.cte", "shape.union"}
 
 func init() {
 	fw.Register(&fw.Prop{
@@ -213,6 +213,16 @@ func c17Run(c *fw.Case) {
 		feats = append(feats, "where")
 	}
 	style := c.Intn(2)
+	shape := ""
+	switch {
+	case strings.HasPrefix(force, "shape."):
+		shape = strings.TrimPrefix(force, "shape.")
+	case force == "" && c.Chance(0.3):
+		shape = gen.Pick(c.R, []string{"derived", "cte", "union"})
+	}
+	if shape != "" {
+		feats = append(feats, "shape."+shape)
+	}
 	render := func(dq, brackets bool) string {
 		q := gen.QBacktick
 		if dq {
@@ -240,6 +250,15 @@ func c17Run(c *fw.Case) {
 		sql := "SELECT " + strings.Join(parts, ", ") + " FROM " + gen.Ident("root.t1", q)
 		if where != nil {
 			sql += " WHERE " + gen.RenderPred(where, gen.RenderOpts{Quote: q, StrStyle: style})
+		}
+		// nested queries see the same (wrapped) document as the outer one
+		switch shape {
+		case "derived":
+			sql = "SELECT * FROM (" + sql + ") q"
+		case "cte":
+			sql = "WITH c1 AS (" + sql + ") SELECT * FROM c1"
+		case "union":
+			sql = sql + " UNION ALL " + sql
 		}
 		return sql
 	}
@@ -321,6 +340,14 @@ func c17Run(c *fw.Case) {
 			}
 		}
 		want = append(want, out)
+	}
+	switch shape {
+	case "derived":
+		for i := range want {
+			want[i] = map[string]any{"q": want[i]}
+		}
+	case "union":
+		want = append(append([]any{}, want...), want...)
 	}
 	det["expected"] = val.Show(want)
 	if !(len(want) == 0 && len(r0.Rows) == 0) && !sameSelValue(r0.Rows, want) {
